@@ -265,8 +265,16 @@ def gen_assign_fixture(rng, src):
 
 
 def gen_class(rng, src, indent="", depth=0):
-    if rng.random() < 0.4:
+    r0 = rng.random()
+    if r0 < 0.3:
         src.add(f'{indent}@pytest.mark.usefixtures({strlit(rng, src, rng.choice(PLAIN_NAMES))})')
+    elif r0 < 0.45:
+        # wrapped argument list: the strings sit on later lines than the decorator itself
+        src.add(f"{indent}@pytest.mark.usefixtures(")
+        for nm in rng.sample(PLAIN_NAMES, rng.choice([1, 2])):
+            src.add(f"{indent}    {strlit(rng, src, nm)},")
+        src.add(f"{indent})")
+        src.features.add("multiline-class-mark")
     src.add(f"{indent}class Test{'Inner' * depth}K{rng.randrange(9)}:")
     n = rng.choice([1, 2, 3])
     for _ in range(n):
